@@ -1128,6 +1128,9 @@ func (c *Ctx) ruleAnnotationUseOrReject() {
 				continue
 			}
 			fn = c.P.LookupFunc(e[0], e[1])
+			if fn == nil && kind == "Paste" {
+				fn = fnObj(c.pasteRoles().pasteDirective)
+			}
 			if fn == nil {
 				// the collector was renamed, inlined or split: any function that branches on this kind (mentions its
 				// constant), or a direct caller of such a function, through which the annotation is used or rejected
